@@ -3,7 +3,7 @@ operation line (generated source, exec'd), decorate it with the real decorators,
 
 Line:  CALL \t kind[:style] \t provider \t scope \t item...
   item  P|name|S|spec|value          single hint
-        P|name|T|spec;spec;..|value  tuple hint
+        P|name|T|spec;spec;..|value  tuple hint   (TO: Optional[tuple[...]])
         R|S/T/-|specs|value          return hint (or '-') and what the body returns ('!' = raises)
   value N | X | T,lib:dtype,d1.d2 | U:v;v;v (a tuple)
 """
@@ -97,8 +97,8 @@ class Built:
 
     def hint_src(self, mode: str, specs: str, val_s: str) -> str:
         """source text of the type hint; annotation objects are created here (may raise SyntaxError)"""
-        sp = impl.split_semi(specs) if mode == "T" else [specs]
-        if mode == "T":
+        sp = impl.split_semi(specs) if mode in ("T", "TO") else [specs]
+        if mode in ("T", "TO"):
             vals = impl.split_semi(val_s[2:]) if val_s.startswith("U:") else []
         else:
             vals = [val_s]
@@ -106,6 +106,10 @@ class Built:
         for i, s in enumerate(sp):
             if s == "-":
                 parts.append("int")
+                continue
+            if s == "-a":
+                # a plain position spelled with Annotated and metadata that is no dltype annotation
+                parts.append("Annotated[int, 'count']")
                 continue
             cls, opt, shape = s.split(",", 2)
             ann = impl.class_by_name(cls)(impl.opt_shape(shape))
@@ -115,8 +119,11 @@ class Built:
             _b, bsrc = _base_for(vals[i] if i < len(vals) else "")
             h = f"Annotated[{bsrc}, {nm}]"
             h = {"0": h, "1": h + " | None", "2": h + " | int", "3": h + " | int | None", "4": f"typing.Optional[{h}]",
-                 "5": "None | " + h, "6": f"Annotated[int, {nm}]", "7": f"typing.Optional[typing.Optional[{h}]]"}[opt]
+                 "5": "None | " + h, "6": f"Annotated[int, {nm}]", "7": f"typing.Optional[typing.Optional[{h}]]",
+                 "8": f"typing.Union[int, {h}]", "9": f"typing.Union[None, float, {h}]"}[opt]
             parts.append(h)
+        if mode == "TO":
+            return "typing.Optional[tuple[" + ", ".join(parts) + "]]"
         if mode == "T":
             return "tuple[" + ", ".join(parts) + "]" if parts else "tuple[()]"
         return parts[0]
